@@ -16,6 +16,16 @@ const (
 
 func (c Class) String() string { return [...]string{"equivalent", "distinct", "unknown"}[c] }
 
+func asciiLower(s string) string {
+	b := []byte(s)
+	for i, c := range b {
+		if 'A' <= c && c <= 'Z' {
+			b[i] = c + 'a' - 'A'
+		}
+	}
+	return string(b)
+}
+
 func isUnreservedASCII(b byte) bool {
 	return b >= 'a' && b <= 'z' || b >= 'A' && b <= 'Z' || b >= '0' && b <= '9' || b == '-' || b == '.' || b == '_' || b == '~'
 }
@@ -118,7 +128,7 @@ func wireTarget(u *url.URL) (path, query string, hasQ bool) {
 // KeyOf computes the comparison keys of a URL as the client built it.
 func KeyOf(u *url.URL) URIKey {
 	scheme := strings.ToLower(u.Scheme)
-	host := strings.ToLower(u.Hostname())
+	host := asciiLower(u.Hostname()) // ASCII only: U+0130 "İ" is not "i"
 	port := u.Port()
 	if i := strings.LastIndexByte(u.Host, ':'); port == "" && i >= 0 && !strings.HasSuffix(u.Host, "]") && strings.Count(u.Host, ":") == 1 {
 		// "host:" (empty port)
@@ -187,7 +197,7 @@ func CompareURI(a, b *url.URL) Class {
 	}
 	if a.Opaque != "" {
 		// net/http connects to URL.Host and sends Opaque?RawQuery as the request target
-		sameHost := strings.EqualFold(a.Host, b.Host)
+		sameHost := asciiLower(a.Host) == asciiLower(b.Host)
 		if strings.EqualFold(a.Scheme, b.Scheme) && a.Opaque == b.Opaque && a.RawQuery == b.RawQuery && sameHost {
 			return Equivalent
 		}
@@ -226,5 +236,5 @@ func SameOrigin(a, b *url.URL) bool {
 		}
 		return p
 	}
-	return strings.EqualFold(a.Scheme, b.Scheme) && strings.EqualFold(a.Hostname(), b.Hostname()) && def(a) == def(b)
+	return strings.EqualFold(a.Scheme, b.Scheme) && asciiLower(a.Hostname()) == asciiLower(b.Hostname()) && def(a) == def(b)
 }
